@@ -486,7 +486,7 @@ func enumerate(thorough bool, bound int, emit func(sub string, x *explore.C, cs 
 		r.EOF = explore.Pick(x, "eof", 0, 1, 2)
 		cs = Case{Doc: d, Render: r}
 	}, visit("index"))
-	// (1d) markup state across lines and cues: two cues, each <=2 lines of one run, three styles, tags kept open
+	// (1d) markup state across lines and cues: two cues, each <=3 lines of one run, three styles, tags kept open
 	// lazily / left unterminated at the end of a cue / upper-case / each colour quoting: a style must never leak
 	// into the next cue and must carry over lines exactly as the tags say
 	explore.Explore(-1, func(x *explore.C) {
@@ -494,7 +494,7 @@ func enumerate(thorough bool, bound int, emit func(sub string, x *explore.C, cs 
 		sts := []srt.Style{{}, {B: true}, {I: true, Color: "#00ff00"}}
 		for k := 0; k < 2; k++ {
 			cue := srt.Cue{Start: int64(k+1) * 2000, End: int64(k+1)*2000 + 1000}
-			nl := explore.Pick(x, "nlines", 1, 2)
+			nl := explore.Pick(x, "nlines", 1, 2, 3) // three lines: a span open over a middle line that has no markup of its own
 			for l := 0; l < nl; l++ {
 				cue.Lines = append(cue.Lines, srt.Line{{Text: "x", Style: explore.Pick(x, "style", sts...)}})
 			}
